@@ -266,8 +266,8 @@ func execOp(st *state, line string) string {
 			pk := x.GetPK()
 			seed := x.GetSeed()
 			es := x.GetExtendedSeed()
-			addr := guard(func() string { a := x.GetAddress(); return "ok " + hx(a[:]) })
-			mn := guard(func() string { return "ok " + hx([]byte(x.GetMnemonic())) })
+			addr := guard(func() string { a := x.GetAddress(); return "ok:" + hx(a[:]) })
+			mn := guard(func() string { return "ok:" + hx([]byte(x.GetMnemonic())) })
 			return fmt.Sprintf("ok idx=%d h=%d pk=%s seed=%s ext=%s addr=%s mn=%s", x.GetIndex(), x.GetHeight(), hx(pk[:]), hx(seed[:]), hx(es[:]), addr, mn)
 		case f[0] == "x.snap" && len(f) == 2:
 			x := st.xkeys[f[1]]
